@@ -3,9 +3,9 @@ use crate::{
     base::{ResourceType, DEFAULT_MAX_RESOURCE_AMOUNT, TOTAL_IN_BOUND_RESOURCE_NAME},
     logging,
 };
-use lazy_static::lazy_static;
+use crate::vsync::lazy_static;
 use std::collections::HashMap;
-use std::sync::{Arc, RwLock};
+use crate::vsync::{Arc, RwLock};
 
 type ResourceNodeMap = HashMap<String, Arc<ResourceNode>>;
 
